@@ -243,6 +243,16 @@ func (r *DefaultRuleRenderer) ProtoRuleToIptablesRules(
 	if ruleCopy == nil {
 		return nil
 	}
+	if ruleCopy.Protocol != nil && ruleCopy.NotProtocol != nil {
+		// iptables accepts a single (possibly negated) protocol match per rule: rendering both
+		// "-p X" and "! -p Y" makes iptables-restore fail ("multiple -p flags not allowed").
+		// The negated match adds nothing to a positive one: either it names the same protocol
+		// (the rule can never match) or it is implied by the positive match.
+		if protocolsEqual(ruleCopy.Protocol, ruleCopy.NotProtocol) {
+			return nil
+		}
+		ruleCopy.NotProtocol = nil
+	}
 	// There are a few areas where our data model doesn't fit with iptables, requiring us to
 	// render multiple iptables rules for one of our rules:
 	//
@@ -774,6 +784,39 @@ func (r *DefaultRuleRenderer) generateLogPrefix(id types.IDMaker, tier string) s
 			return specifier
 		}
 	})
+}
+
+// protocolsEqual returns true if the two protocols denote the same IP protocol, whether they are
+// given by name or by number.
+func protocolsEqual(a, b *proto.Protocol) bool {
+	num := func(p *proto.Protocol) int {
+		switch v := p.NumberOrName.(type) {
+		case *proto.Protocol_Number:
+			return int(v.Number)
+		case *proto.Protocol_Name:
+			switch strings.ToLower(v.Name) {
+			case "icmp":
+				return 1
+			case "tcp":
+				return 6
+			case "udp":
+				return 17
+			case "icmpv6":
+				return 58
+			case "sctp":
+				return 132
+			case "udplite":
+				return 136
+			}
+		}
+		return -1
+	}
+	na, nb := num(a), num(b)
+	if na < 0 || nb < 0 {
+		// Unknown name: fall back to comparing the names themselves.
+		return strings.EqualFold(a.GetName(), b.GetName()) && a.GetName() != ""
+	}
+	return na == nb
 }
 
 func appendProtocolMatch(match generictables.MatchCriteria, protocol *proto.Protocol, logCxt *logrus.Entry) generictables.MatchCriteria {
